@@ -16,16 +16,19 @@ class P(vlib.Prop):
             "InstallPackages behind a server that releases packages in a scripted order, the resolver; groupByOriginAndSize is also called six more times per case on reshuffled input - one answer). "
             "matrix also builds a two-architecture configuration whose newest package date differs per architecture, without SOURCE_DATE_EPOCH, while one architecture's packages are served late (each in turn). "
             "baseimage stage: the repository's image-on-a-base-image test configuration through build.New + BuildLayers, as configured and with appended build/runtime repositories, twice per architecture under different temp directories; judged in Coq: etc/apk/repositories after build.New against the model of initializeApk (lists read from the source), the file in the layer against the generated build steps, nothing of the temp directory in the image, both runs equal. "
-            "every matrix build that shows an index: its org.opencontainers.image.created against the generated multi-architecture date fold over the image manifests' dates. canon also runs InstallPackages under GOMAXPROCS 1, 2, 3 (the limit of the goroutine group): requests must arrive as the limited model allows, the call must return. A build case is non-trivial when it is not "
+            "every matrix build that shows an index: its org.opencontainers.image.created against the generated multi-architecture date fold over the image manifests' dates. canon also runs InstallPackages under GOMAXPROCS 1, 2, 3 (the limit of the goroutine group): requests must arrive as the limited model allows, the call must return. history stage (wave 3): the same build with a history behind it against that build in a FRESH PROCESS with fresh directories - several images built in one process through the library (an image whose world constrains a version / picks a provider / excludes a package first, then the image under test, twice), "
+            "a temp directory (WithTempDir) or tarball path (WithTarball) that holds a longer (and a shorter) earlier layer, `apko build` onto an out.tar left by a bigger build (finding C01-F3) and by the same build; installed packages, layer digest, size in the descriptor, length and sha256 of the blob, config, manifest, tarball bytes compared. "
+            "matrix also builds against two repositories that offer the same name and version as different files while each repository's index is served late in turn. A build case is non-trivial when it is not "
             "the reference of its group; distinct = distinct command lines / case terms.")
     stages = (
         dict(name="matrix", cmd="c01", args=lambda t, s: ["-stage", "matrix"], timeout=3400),
         dict(name="installif", cmd="c01", args=lambda t, s: ["-stage", "installif"]),
         dict(name="canon", cmd="c01", args=lambda t, s: ["-stage", "canon"]),
         dict(name="baseimage", cmd="c01", args=lambda t, s: ["-stage", "baseimage"]),
+        dict(name="history", cmd="c01", args=lambda t, s: ["-stage", "history"]),
     )
     watch = ("pkg/build/*.go", "pkg/build/oci/*.go", "pkg/tarfs/fs.go", "pkg/apk/apk/world.go", "pkg/apk/apk/installed.go",
-             "pkg/apk/apk/implementation.go", "pkg/apk/apk/repo.go", "pkg/sbom/generator/spdx/spdx.go", "internal/cli/build.go")
+             "pkg/apk/apk/implementation.go", "pkg/apk/apk/repo.go", "pkg/apk/apk/index.go", "pkg/apk/apk/shameful_global_caches.go", "pkg/sbom/generator/spdx/spdx.go", "internal/cli/build.go")
     assumptions = (
         "sort.Strings / sort.Slice / slices.SortFunc / sets.List return a sorted permutation of their input (their algorithms are not modelled; the theorems hold for ANY function with that contract)",
         "expandPackage is a function of the package alone (cache transparency at byte level is explored by the matrix, proved for the protocol in C19)",
@@ -44,7 +47,8 @@ class P(vlib.Prop):
                   "c01_repositories_file_independent_of_tempdir (initializeApk's lists read from the source, C10's generated build steps for every valuation of their conditions: the build-time file names the base image's temp path, "
                   "the serialised one is the runtime list whatever that path; _without_rewrite_refuted) are proved for all inputs about executable models whose sort/set calls are re-checked in the source on every run "
                   "(Generated/C01Calls.v, c01_source_calls_present). c01_resolve_order holds in full since fix c03e0c0, stated over Model/Resolver.v's install_if loop (versioned entries included; one list for every universe and dependency list, "
-                  "no fuel exhaustion, no failure; formerly refuted, finding C01-F1); c01_tarball_order is REFUTED with a witness (finding C01-F2; repair proposed in fixes/C01-F2.patch) and its strongest partial form proved. pgzip thread-count independence, goroutine scheduling, umask/TMPDIR/TZ/cwd influence and byte-level cache "
+                  "no fuel exhaustion, no failure; formerly refuted, finding C01-F1); c01_tarball_order is REFUTED with a witness (finding C01-F2; repair proposed in fixes/C01-F2.patch) and its strongest partial form proved. Wave 3: c01_layer_file_independent_of_earlier_content (the flags of the calls that open the layer file are read from the source: truncating or new at every site), "
+                  "c01_output_file_independent_of_earlier_content_refuted (BuildIndex opens out.tar without O_TRUNC: finding C01-F3, fixes/C01-F3.patch), c01_index_order_schedule (GetRepositoryIndexes stores by position: repository order for every completion order; _by_arrival_refuted), c01_caches_hand_out_copies (C08's generated facts). pgzip thread-count independence, goroutine scheduling, umask/TMPDIR/TZ/cwd influence and byte-level cache "
                   "transparency are NOT proved: they are explored by the build matrix.")
     level_note = ("partial: proof covers the order/schedule/date logic; exploration (repeated real builds compared by sha256) covers pgzip, the scheduler, the host environment "
                   "and the cache. trusted: Coq kernel, goextract, Go harness/printer, sha256 of the harness; modelled not verified: the Go text of the modelled functions")
